@@ -87,7 +87,9 @@ def run(repo='/repo', tier='quick'):
                             facts = [a for a, e in P.facts_at(sf, b)]
                             per_line = ('connp->%s_next_byte' % d, '==', 'LF') in facts
                             capped = any(('consume_offset' in a[0] and a[1] in ('<', '<=')) for a in facts)
-                            key = '%s:per-byte-call:%s' % (name, g.name)
+                            # the key says for which bytes the rescan runs, so a recorded finding cannot hide a worse variant at the same site
+                            skipped = any('is_chunked_ctl_char(' in a[0] and a[1] == '==' and a[2] == '0' for a in facts)
+                            key = '%s:per-byte-call:%s:%s' % (name, g.name, 'for-non-control-bytes' if skipped else 'for-every-byte')
                             if per_line or capped:
                                 res.holds('C08.e', key, 'called once per line / under a span cap', c['loc'])
                             else:
